@@ -716,7 +716,8 @@ class C01(Property):
               ['ext', ['p', 'y', [[1, 0]]], []], ['new', ['p', 'y', [[0, 1]]], []], ['ior', ['p', 'y', []]],
               ['rej', 'add'], ['rej', 'upd_none'], ['rej', 'poplast'], ['rej', 'addlist_int'],
               ['fk', [0, 1, 0], 1], ['fk', [1], -1], ['fk', [], 0], ['it', 0], ['it', 1], ['drain'],
-              ['eq', ['mm', 'c', [[1, 0]]]], ['eq', ['mm', 'd0', [[0, 0]]]], ['upd', ['mm', 'c', [[0, 1], [1, 0]]], []]]
+              ['eq', ['mm', 'c', [[1, 0]]]], ['eq', ['mm', 'd0', [[0, 0]]]], ['upd', ['mm', 'c', [[0, 1], [1, 0]]], []],
+              ['selfrepr', 0]]
         return A
 
     def _core_alphabet(self):
@@ -849,6 +850,8 @@ class C01(Property):
                 ops.append(['clear'])
             elif r < 0.71:
                 ops.append(['it', rng.randint(0, 3)] if rng.random() < 0.7 else ['drain'])
+                if rng.random() < 0.15:
+                    ops.append(['selfrepr', k])
             elif r < 0.715:
                 ops.append(['rej', rng.choice(REJECTS)])
             elif r < 0.72:
@@ -952,6 +955,8 @@ class C01(Property):
             H.append([base] + [X, ['poplast', 0, 1], ['add', 3, 1]] * 3 + [['popitem']])
         H.append([base] + [['rej', w] for w in REJECTS] + [['add', 0, 1]] + [['rej', w] for w in REJECTS])
         H.append([['rej', w] for w in REJECTS])
+        # a dictionary that contains itself as a value (a plain list of pairs prints `[...]` there)
+        H.append([['selfrepr', 1], base, ['selfrepr', 0], ['selfrepr', 3], ['poplast', 0, 0], ['selfrepr', 2]])
         for ks in ([0, 1, 0, 3, 0], [], [2], [1, 1, 1]):
             H.append([base, ['fk', ks, 2], ['add', 0, 1], ['poplast', 0, 0], ['fk', ks, -1], ['eq', ['t']]])
         # iterators left half-consumed while the dictionary changes under them, drained later: whatever they yield
@@ -1053,7 +1058,7 @@ class C01(Property):
                 toks.append(o)
             elif o == 'rej':
                 toks.append('rej')
-            elif o in ('it', 'drain'):
+            elif o in ('it', 'drain', 'selfrepr'):
                 toks.append('nop')
             elif o == 'fk':
                 toks.append('fk:%s:%d' % (','.join(map(str, op[1])) or '-', NONE_V if op[2] < 0 else op[2]))
@@ -1245,6 +1250,19 @@ class C01(Property):
                             next(it, None)
                     cx.iters += its
                     return ['N'], s, t
+                elif o == 'selfrepr':
+                    # a copy of `s` that holds ITSELF as a value: repr must cope (list, dict, OrderedDict print `...`),
+                    # the copy module and pickle must keep the cycle
+                    ps = s.items(multi=True)
+                    x = cls(ps)
+                    kk = cx.K(op[1])
+                    x.add(kk, x)
+                    txt = repr(x)
+                    head = '%s([%s' % (type(x).__name__, ''.join(repr(p) + ', ' for p in ps))
+                    c, p5 = copy.deepcopy(x), pickle.loads(pickle.dumps(x, 2))
+                    ok = (txt.startswith(head) and txt.endswith(')])') and c[kk] is c and p5[kk] is p5
+                          and len(c) == len(x) == len(p5) and x == x and c.keys() == x.keys())
+                    return (['N'] if ok else ['?', 'self-containing dictionary: %.80r' % (txt,)]), s, t
                 elif o == 'drain':
                     for it in cx.iters:
                         try:
@@ -1587,6 +1605,7 @@ class C01(Property):
 
     def oracle(self, case, obs):
         L, T = [], []
+        pending = None
         self._nt = False
         interleaved = removed = False
         ops = case['ops']
@@ -1713,7 +1732,7 @@ class C01(Property):
                     removed = True
             elif name == 'clear':
                 L = []
-            elif name in ('it', 'drain'):
+            elif name in ('it', 'drain', 'selfrepr'):
                 pass
             elif name == 'rej':
                 # outside the domain of the statement: any exception (or none) is fine, the pairs must stay as they are
@@ -1744,8 +1763,11 @@ class C01(Property):
                     m, z, ks = dict(ps), MISSING_FORMS[op[1][1]], self._keys(L)
                     if len(m) == len(ks) and all((m[k] == self._vals_of(L, k)[-1]) if k in m else
                                                  (self._vals_of(L, k)[-1] == z) for k in ks):
-                        return Failure('eq:missing', 'op #%d %r: == is True although the mapping %r lacks a key of the pairs %r '
-                                       '(its __missing__ answered for it)' % (idx, op, m, L))
+                        # a query: the dictionary is untouched, so the rest of the history is still judged (a different
+                        # failure further on takes precedence over this known one)
+                        pending = pending or Failure('eq:missing', 'op #%d %r: == is True although the mapping %r lacks a key '
+                                                     'of the pairs %r (its __missing__ answered for it)' % (idx, op, m, L))
+                        exp = ret
             elif name == 'sorted':
                 fn = {'n': (lambda p: p), 'k': (lambda p: p[0]), 'v': (lambda p: p[1]), 'c': (lambda p: 0)}[op[1]]
                 res = sorted(L, key=fn, reverse=bool(op[2]))
@@ -1780,7 +1802,11 @@ class C01(Property):
                 if why:
                     return Failure(name, 'op #%d %r: %s (pairs before: %r)' % (idx, op, why, L))
             elif ret != exp:
-                return Failure('ret:' + name, 'op #%d %r returned %r, a plain list of pairs gives %r' % (idx, op, ret, exp))
+                f = Failure('ret:' + name, 'op #%d %r returned %r, a plain list of pairs gives %r' % (idx, op, ret, exp))
+                if name == 'selfrepr' and ret == ['X', 'RecursionError']:
+                    pending = pending or f       # a query on a separate object: go on judging the history
+                else:
+                    return f
             # ---- every reader, after this prefix of the history
             f = self._check_reads(L, T, d)
             if f is not None:
@@ -1793,7 +1819,7 @@ class C01(Property):
         st['histories'] = st.get('histories', 0) + 1
         st['cls:' + case['c']] = st.get('cls:' + case['c'], 0) + 1
         st['univ:' + case['u']] = st.get('univ:' + case['u'], 0) + 1
-        return None
+        return pending
 
     def _check_reads(self, L, T, d):
         keys = self._keys(L)
@@ -1836,6 +1862,11 @@ class C01(Property):
     # __missing__; the oracle raises this tag only on the exact trigger and the exact wrong answer
     def finding_eq_mapping_missing(self, case, failure):
         return failure.tag == 'eq:missing'
+
+    # known finding (until the second fix: commit of branch r3-c01-work is in the checked tree): repr of a dictionary that
+    # contains itself
+    def finding_repr_selfref(self, case, failure):
+        return failure.tag == 'ret:selfrepr' and "['X', 'RecursionError']" in failure.what
 
     def nontrivial(self, case, obs):
         return getattr(self, '_nt', False)
